@@ -83,6 +83,8 @@ def abs_of(v, expr):
 
 
 class CostExec(SymExec):
+    ssa = True
+
     def __init__(self, world, fi, flags=None, env=None, stack=(), loops=(), self_env=None, cls=None):
         from ..normalise import normalised
         fi = normalised(world.repo, fi)      # new helpers, nested defs, comprehension-with-helper, conditional expressions: one spelling
